@@ -22,6 +22,10 @@ from specs import arguments as ref  # noqa: E402
 
 LEVEL = "other"
 DASH = 0x2D
+IMPORTS = [
+    ("C07", ("C07.carry",), "`nothing is lost or invented`: the classified items are read from a token list that every wrapper (ArgList, "
+                            "ArgsIter, RawCommand) hands on unchanged, `one empty token` included"),
+]
 
 
 class R:
